@@ -1,0 +1,61 @@
+//go:build verif
+
+package fasthttp
+
+import (
+	"io"
+
+	"github.com/valyala/fasthttp/stackless"
+)
+
+// Pass-through wrappers for the C22 (compression) verification harness. No behaviour of their own.
+
+// VerifCompressBody calls the unexported body compressor a CompressHandler* picks for `kind`.
+func VerifCompressBody(resp *Response, kind string, level int) {
+	switch kind {
+	case "gzip":
+		resp.gzipBody(level)
+	case "deflate":
+		resp.deflateBody(level)
+	case "br":
+		resp.brotliBody(level)
+	case "zstd":
+		resp.zstdBody(level)
+	}
+}
+
+// VerifStacklessSubmit hands one compression job (compress p into w) to the stackless worker queue of `kind`
+// exactly like stacklessWrite<Kind> does, and returns the queue's boolean: false = the queue was full and the job
+// was NOT run. The harness uses it with a gated writer to hold the workers and fill the queue deterministically.
+func VerifStacklessSubmit(kind string, w io.Writer, p []byte, level int) bool {
+	ctx := &compressCtx{w: w, p: p, level: level}
+	switch kind {
+	case "gzip":
+		stacklessWriteGzipOnce.Do(func() { stacklessWriteGzipFunc = stackless.NewFunc(nonblockingWriteGzip) })
+		return stacklessWriteGzipFunc(ctx)
+	case "deflate":
+		stacklessWriteDeflateOnce.Do(func() { stacklessWriteDeflateFunc = stackless.NewFunc(nonblockingWriteDeflate) })
+		return stacklessWriteDeflateFunc(ctx)
+	case "br":
+		stacklessWriteBrotliOnce.Do(func() { stacklessWriteBrotliFunc = stackless.NewFunc(nonblockingWriteBrotli) })
+		return stacklessWriteBrotliFunc(ctx)
+	case "zstd":
+		stacklessWriteZstdOnce.Do(func() { stacklessWriteZstdFunc = stackless.NewFunc(nonblockingWriteZstd) })
+		return stacklessWriteZstdFunc(ctx)
+	}
+	panic("VerifStacklessSubmit: unknown kind " + kind)
+}
+
+// VerifNormalizeCompressLevel exposes the three level normalisers.
+func VerifNormalizeCompressLevel(kind string, level int) int {
+	switch kind {
+	case "br":
+		return normalizeBrotliCompressLevel(level)
+	case "zstd":
+		return normalizeZstdCompressLevel(level)
+	}
+	return normalizeCompressLevel(level)
+}
+
+// VerifMinCompressLen exposes minCompressLen.
+const VerifMinCompressLen = minCompressLen
